@@ -309,7 +309,7 @@ Definition run_c10 (sub : N) (args : list (list N)) : list N :=
   end.
 
 (* C13: Agent histories.  1301 <op> <op> ...   times/deadlines are offsets (N) from a base instant
-   op = [1; id; deadline] Start | [2; id; e] StopWithError (e = 0: Stop) | [3; id] Process
+   op = [1; id; deadline] Start | [2; id; e] StopWithError (e = 0: Stop) | [3; id] or [3; id; msgtype] Process
       | [4; t] Collect | [5; h] SetHandler | [6] Close
    result per operation: return code (0 ok 1 closed 2 exists 3 not-exists), number of events, then the
    events sorted: handler, id, kind, error *)
@@ -318,6 +318,7 @@ Definition parse_aop (f : list N) : option aop :=
   | [1; id; d] => Some (AStart id (Z.of_N d))
   | [2; id; e] => Some (AStopErr id e)
   | [3; id] => Some (AProcess id)
+  | [3; id; _] => Some (AProcess id)      (* third number: the message type of the processed message; it must not matter *)
   | [4; t] => Some (ACollect (Z.of_N t))
   | [5; h] => Some (ASetHandler h)
   | [6] => Some AClose
